@@ -192,14 +192,33 @@ class WrapQuotes(Contract):
     target = 'bfg9000/shell/posix.py::wrap_quotes'
     properties = ('C01', 'C02', 'C04')
 
+    def cases(self):
+        return ['', 'pre/make', 'pre/ninja']
+
     def params(self, cx, case):
         cx.ghost('m', z3.Const('m', T.Str))
+        if case:
+            cx.ghost('pre', z3.Const('pre', T.Str))
+            cx.ghost('pm', z3.Const('pm', T.Str))
+            cx.ghost('reader', case.split('/')[1])
         return {'s': cx.str('s')}
 
+    def mode(self, a):
+        return a._g.get('reader')
+
     def requires(self, a):
-        return M.sym_str(a.s) == sq(a.m)
+        if self.mode(a) is None:
+            return M.sym_str(a.s) == sq(a.m)
+        pre, pm, m = a.pre, a.pm, a.m
+        n = z3.Length(pre)
+        pre_ok = z3.Or(z3.And(n == 0, pm == T.empty()),
+                       z3.And(n >= 3, pre[0] == ord('$'), pre[n - 1] != QUOTE, reads(a.reader, pre, pm), _FR.all_markers(pm)))
+        return T.AND(M.sym_str(a.s) == T.cat(pre, _FR.dol(sq(m))), pre_ok, z3.Not(has_crlf(m)), is_pystr(m))
 
     def ensures(self, a, r):
+        if self.mode(a) is not None:
+            ok, t = reader_out(a.reader, M.sym_str(r))
+            return {'build_tool_reads_literal_text': ok, 'sh_reads_one_closed_word': frag(t, T.cat(a.pm, a.m))}
         return {'one_closed_word': frag(M.sym_str(r), a.m),
                 'no_new_linebreaks': preserves_absence(M.sym_str(a.s), M.sym_str(r)),
                 'first_char_is_quote_or_backslash': T.AND(z3.Length(M.sym_str(r)) > 0,
@@ -214,7 +233,12 @@ class WrapQuotes(Contract):
     def native_alphabet(self):
         return SH_ALPHABET
 
+    def native_params(self, case):
+        return ['s'] if not case else None
+
     def native_inputs(self, case, alphabet, maxlen, rng, extra=0):
+        if case:
+            return
         # inputs satisfying the precondition: escaped forms of arbitrary strings
         from pyvc.native import strings
         for m in strings(alphabet, maxlen):
@@ -233,6 +257,8 @@ class WrapQuotes(Contract):
         return ('sq_body',)
 
     def proof(self, p, a, r, name, case):
+        if case:
+            return self.proof_pre(p, a, r, name)
         if name == 'no_new_linebreaks':
             return self.proof_crlf(p, a, r)
         if name == 'first_char_is_quote_or_backslash':
@@ -278,6 +304,56 @@ class WrapQuotes(Contract):
                 q2.qed()
 
 
+    def proof_pre(self, p, a, r, name):
+        rd = a.reader
+        pre, pm, m = a.pre, a.pm, a.m
+        s = M.sym_str(a.s)
+        rt = M.sym_str(r)
+        n = z3.Length(m)
+        p.use(L_markers_sq.inst(u=pm))
+        p.use(L_sq_crlf.inst(u=m))
+        Q, BSL = T.lit("'"), T.lit("\\")
+        with_pre, no_pre = p.cases('pre', [('some', z3.Length(pre) > 0), ('none', z3.Length(pre) == 0)])
+        # --- a variable reference in front: only the end of the text can be a quote
+        e, ne = with_pre.cases('m', [('empty', n == 0), ('nonempty', n > 0)])
+        e.subst('m', m, T.empty())
+        e.rewrite('result', rt, T.cat(Q, pre, Q))
+        e.qed()
+        ml = ne.let('ml', value=m[n - 1])
+        mi = ne.let('minit', value=z3.Extract(m, z3.IntVal(0), n - 1))
+        ne.subst('m', m, T.cat(mi, T.unit(ml)))
+        ne.use(L_reader_dollar[rd].inst(u=sq(mi)))
+        ne.use(L_sq_crlf.inst(u=mi))
+        ne.use(L_sq_body.inst(u=mi))
+        ql, nql = ne.cases('last', [('q', ml == QUOTE), ('nq', ml != QUOTE)])
+        ql.rewrite('result', rt, T.cat(Q, pre, _FR.dol(sq(mi)), T.lit("'\\'")))
+        ql.qed()
+        nql.rewrite('result', rt, T.cat(Q, pre, _FR.dol(sq(mi)), _FR.dol(T.unit(ml)), Q))
+        nql.qed()
+        # --- no prefix: the text is the escaped form of m itself
+        no_pre.subst('pre', pre, T.empty())
+        e2, o2, l2 = no_pre.cases('shape', [('empty', n == 0), ('one', n == 1), ('long', n >= 2)])
+        e2.subst('m', m, T.empty())
+        e2.qed()
+        m0 = o2.let('m0', value=m[0])
+        o2.subst('m', m, T.unit(m0))
+        for qq in o2.cases('c', [('q', m0 == QUOTE), ('d', m0 == ord('$')), ('o', z3.And(m0 != QUOTE, m0 != ord('$')))]):
+            qq.qed()
+        m0 = l2.let('m0', value=m[0])
+        mlast = l2.let('ml', value=m[n - 1])
+        mid = l2.let('mid', value=z3.Extract(m, z3.IntVal(1), n - 2))
+        l2.subst('m', m, T.cat(T.unit(m0), mid, T.unit(mlast)))
+        l2.use(L_reader_dollar[rd].inst(u=sq(mid)))
+        l2.use(L_sq_crlf.inst(u=mid))
+        l2.use(L_sq_body.inst(u=mid))
+        absorb_all(l2, mid)
+        heads = {'q': T.lit("\\''"), 'nq': T.cat(Q, _FR.dol(T.unit(m0)))}
+        tails = {'q': T.lit("'\\'"), 'nq': T.cat(_FR.dol(T.unit(mlast)), Q)}
+        for f, q1 in zip(('q', 'nq'), l2.cases('first', [('q', m0 == QUOTE), ('nq', m0 != QUOTE)])):
+            for l, q2 in zip(('q', 'nq'), q1.cases('last', [('q', mlast == QUOTE), ('nq', mlast != QUOTE)])):
+                q2.rewrite('result', rt, T.cat(heads[f], _FR.dol(sq(mid)), tails[l]))
+                q2.qed()
+
     def proof_crlf(self, p, a, r):
         # decompose s = [s0] . mid . [sl]; every slice the code takes is then a concatenation of these parts
         s = M.sym_str(a.s)
@@ -293,6 +369,63 @@ class WrapQuotes(Contract):
         long_.rewrite('result', rt, T.cat(head, mid, tail))
         long_.subst('s', s, T.cat(T.unit(s0), mid, T.unit(sl)))
         long_.qed()
+
+
+# ---- wrap_quotes on text that was already escaped for the build file (`$` doubled) and that may start with a
+# ---- reference to a path variable: the shape Writer.write produces for BasePath fragments ------------------------
+
+from specs import make as _MK
+from specs import ninja as _NJ
+from contracts import fragments as _FR
+
+READERS = {
+    'make': (_MK.mk_recipe, (_MK.N, 1, 0), lambda st: z3.And(st[0] == _MK.N, st[1] == 1, st[2] == 0)),
+    'ninja': (_NJ.nj_value, (_NJ.NORMAL, 1), lambda st: z3.And(st[0] == _NJ.NORMAL, st[1] == 1)),
+}
+
+
+def reads(reader, text, content):
+    """the build tool reads `text` (from a neutral state) as exactly the literal `content`, ending neutral"""
+    fold, init, neutral = READERS[reader]
+    st, out = fold.run(init, text)
+    return z3.And(neutral(st), out == content)
+
+
+def reader_out(reader, text):
+    fold, init, neutral = READERS[reader]
+    st, out = fold.run(init, text)
+    return neutral(st), out
+
+
+_ABSORB = {}
+
+
+def absorb(cls):
+    """once a character of the class has been seen, the `any` fold stays at 1 (needed when a string is taken apart
+    from the front: the fold then continues from a symbolic state)"""
+    f = M.any_fold(cls)
+    if f.name not in _ABSORB:
+        _ABSORB[f.name] = Lemma('any_fold_is_absorbing_%s' % f.name, [('u', T.Str)],
+                                lambda u, f=f: f.state((1,), u)[0] == 1, induct=('snoc', 'u'))
+    return _ABSORB[f.name]
+
+
+def absorb_all(p, u):
+    for cls in (T.CharClass.of('\n', repr('\n')), T.CharClass.of('\r', repr('\r')), T.NEGATIVE):
+        p.use(absorb(cls).inst(u=u))
+
+
+def _reader_dollar_lemma(reader):
+    return Lemma('%s_reads_dollar_doubled_text_back' % reader, [('u', T.Str)],
+                 lambda u, r=reader: z3.Implies(z3.Not(has_crlf(u)), reads(r, _FR.dol(u), u)), induct=('snoc', 'u'))
+
+
+L_reader_dollar = {r: _reader_dollar_lemma(r) for r in READERS}
+
+L_markers_sq = Lemma('markers_are_literal_inside_quotes', [('u', T.Str)],
+                     lambda u: z3.Implies(_FR.all_markers(u),
+                                          T.AND(sh.run((SQ, 1), u)[0][0] == SQ, sh.run((SQ, 1), u)[0][1] == 1,
+                                                sh.run((SQ, 1), u)[1] == u)), induct=('snoc', 'u'))
 
 
 class QuoteInfoStr(Contract):
